@@ -100,6 +100,9 @@ func (eval Evaluator) Add(op0 *rlwe.Ciphertext, op1 rlwe.Operand, opOut *rlwe.Ci
 			}
 		}
 
+		// The scalar was encoded at the scale of op0.
+		opOut.Scale = op0.Scale
+
 	case []complex128, []float64, []*big.Float, []*bignum.Complex:
 
 		_, level, err := eval.InitOutputUnaryOp(op0.El(), opOut.El())
@@ -195,6 +198,9 @@ func (eval Evaluator) Sub(op0 *rlwe.Ciphertext, op1 rlwe.Operand, opOut *rlwe.Ci
 				opOut.Value[i].CopyLvl(level, op0.Value[i]) // Resize step ensures identical size
 			}
 		}
+
+		// The scalar was encoded at the scale of op0.
+		opOut.Scale = op0.Scale
 
 	case []complex128, []float64, []*big.Float, []*bignum.Complex:
 
